@@ -71,6 +71,25 @@ CHECKS.update({
             "explicit-state exhaustive enumeration of regrouping operations on the implementation, layout-map oracle"),
 })
 
+CHECKS.update({
+    "C12": ("DESIGN.md 5/C12",
+            "All lists / dicts of 1-3 (4) square-shaped arrays with every per-array variant of the secondary axes (equal / permuted / overlapping / "
+            "disjoint / other dimension order) are stacked and concatenated (every axis, align, sort); each slice / block is compared with its input by "
+            "dimension name and label, refusals must be ValueError.",
+            "trusts coordinate maps of the inputs (mc/ref.py); label order of aligned secondary axes not constrained (C06)",
+            "explicit-state exhaustive enumeration of near-miss input lists on the implementation, by-name coordinate oracle"),
+    "C17": ("DESIGN.md 5/C17",
+            "Every NaN pattern of small arrays (structured patterns above 6 cells) x sort_axis / take_axis / compress_axis / dropna(minvalid 0..size) / "
+            "fillna / setna forms is executed and compared with slice-wise reference selections built by loops.",
+            "trusts python sorted() and np.arange(n).take(ix, mode) for positional modes; N-d compress() not covered",
+            "explicit-state exhaustive enumeration of (array, NaN pattern, operation) on the implementation, lock-step reference model"),
+    "C18": ("DESIGN.md 5/C18",
+            "Every storage order of 1-4 numeric labels at every axis position x new coordinate vectors (below/on/between/above, unsorted, empty) x fills x "
+            "issorted, plus Dataset and interp_like variants, compared fibre by fibre with np.interp on the label-sorted fibre; cell values are non-linear.",
+            "trusts np.interp (oracle named by the property), rtol 1e-12",
+            "explicit-state exhaustive enumeration of (array, new coordinates, options) on the implementation, per-fibre NumPy oracle"),
+})
+
 PENDING = ["C01", "C03", "C05", "C06", "C07", "C08", "C09", "C10", "C11", "C12", "C13", "C14", "C15", "C16", "C17", "C18", "C19", "C20"]
 
 
